@@ -267,6 +267,89 @@ pub fn hint_strings(h: &Hints) -> Vec<String> {
     out
 }
 
+const ID_PATTERN: &str = "abcdefghijklmnopqrstuvwxyz0123456789";
+
+fn id_pat(j: usize) -> String {
+    ID_PATTERN.chars().cycle().take(j).collect()
+}
+
+/// Tie groups (meant for ONE rank) of ids around a length / prefix length `j`: a common prefix of `j` bytes with the
+/// difference right after it, the prefix against itself + NUL (what zero padding to a fixed width would confuse), a
+/// chain of ids of exact length j-1 / j / j+1 each a prefix of the next, and ids that differ at byte index `j` only.
+pub fn prefix_tie_groups(j: usize) -> Vec<Vec<String>> {
+    let p = id_pat(j);
+    let mut chain = vec![p.clone(), id_pat(j + 1)];
+    if j >= 2 {
+        chain.insert(0, id_pat(j - 1));
+    }
+    let base = id_pat(j + 3);
+    let at = |c: char| -> String { base.chars().enumerate().map(|(i, b)| if i == j { c } else { b }).collect() };
+    vec![vec![format!("{p}a"), format!("{p}b")], vec![p.clone(), format!("{p}\u{0}")], chain, vec![at('!'), at('~'), base.clone()]]
+}
+
+/// Fixed family, part of every run: UUID-shaped ids (36 chars, what real rule ids look like) that share their first
+/// 8 (9 with the dash) / 16 / 24 / 35 characters, and ids where one is a strict prefix of the other.
+pub fn uuid_tie_groups() -> Vec<Vec<String>> {
+    const U: &str = "3f2b8c1e-7a4d-4e9b-a1c6-5d8e9f0a1b2c";
+    let mut out = Vec::new();
+    for s in [8usize, 16, 24, 35] {
+        let at = if U.as_bytes()[s] == b'-' { s + 1 } else { s };
+        let lo = format!("{}0{}", &U[..at], &U[at + 1..]);
+        // the higher one also ends differently, so that a comparison of the tails alone would order the other way round
+        let hi = if at < 35 { format!("{}f{}0", &U[..at], &U[at + 1..35]) } else { format!("{}f", &U[..at]) };
+        out.push(vec![U.to_string(), lo, hi]);
+    }
+    out.push(vec![U[..16].to_string(), U.to_string(), format!("{U}-2")]);
+    out
+}
+
+/// A rule whose position in the application order shows in every observer (status, target, added header, appended text, log).
+pub fn tie_rule(id: &str, ri: usize) -> Value {
+    json!({
+        "id": id, "rank": 1, "status_code": 301 + ri as u64, "target": format!("/t{ri}"), "codes": null, "excl": null, "sampling": null,
+        "hf": [{"action": "add", "header": "X-T", "value": format!("v{ri}"), "id": format!("hu{ri}0"), "target_hash": null}],
+        "bf": [{"kind": "text", "action": "append_text", "content": format!("[{ri}]"), "id": null, "target_hash": null}],
+        "log": ri % 2 == 0, "reset": null, "stop": null, "ru": format!("ru{ri}"), "lu": format!("lu{ri}"), "th": null, "cu": null,
+    })
+}
+
+fn all_perms(n: usize) -> Vec<Vec<usize>> {
+    if n == 0 {
+        return vec![vec![]];
+    }
+    let mut out = Vec::new();
+    for p in all_perms(n - 1) {
+        for pos in 0..n {
+            let mut q = p.clone();
+            q.insert(pos, n - 1);
+            out.push(q);
+        }
+    }
+    out
+}
+
+/// Every group as a match vector in each of its orders (direct), and once through a real router.
+pub fn tie_cases(rng: &mut Prng, groups: &[Vec<String>]) -> Vec<Value> {
+    let mut out = Vec::new();
+    for g in groups {
+        let mut orders: Vec<(Vec<usize>, &str)> = all_perms(g.len()).into_iter().map(|p| (p, "direct")).collect();
+        orders.push(((0..g.len()).collect(), "router"));
+        for (p, via) in orders {
+            let mut case = gen_case(rng);
+            case["rules"] = Value::Array(p.iter().map(|&i| tie_rule(&g[i], i)).collect());
+            case["via"] = json!(via);
+            case["ops"] = json!([{"op":"status"}, {"op":"headers"}, {"op":"body"}, {"op":"log"}]);
+            out.push(case);
+        }
+    }
+    out
+}
+
+/// the prefix lengths to probe for the hinted numbers (n-1, n, n+1 each, at most 300, at most 30 of them)
+pub fn hint_prefix_lengths(h: &Hints) -> Vec<usize> {
+    h.sizes(300).into_iter().take(30).collect()
+}
+
 /// Hint-directed action cases: every hinted number as status code / listed response code / probed response code /
 /// rank / sampling rate / fallback code, hinted sizes as numbers of rules, filters, listed codes and id lengths;
 /// every hinted string as rule id (with prefix-related neighbours), header name / value / action, body content,
@@ -351,6 +434,10 @@ pub fn hint_cases(rng: &mut Prng, h: &Hints) -> Vec<Value> {
         case["rules"] = Value::Array(rules);
         case["via"] = json!("direct");
         out.push(case);
+    }
+    for j in hint_prefix_lengths(h) {
+        // equal-rank groups whose ids agree on / differ at the hinted length: only a full bytewise comparison orders them
+        out.extend(tie_cases(rng, &prefix_tie_groups(j)));
     }
     for s in hint_strings(h) {
         // rule ids: the string, prefix-related neighbours, all with the same rank so that only the id decides
@@ -470,6 +557,13 @@ pub fn gen(args: &Args, emit: &mut dyn FnMut(Value)) {
             emit(c);
         }
         for c in into_route::hint_cases(&mut hr, &h) {
+            emit(c);
+        }
+    }
+    // fixed family in every run: realistic (UUID-shaped) ids with long shared prefixes under one rank
+    {
+        let mut ur = Prng::new(args.seed ^ 0x7575_6964);
+        for c in tie_cases(&mut ur, &uuid_tie_groups()) {
             emit(c);
         }
     }
